@@ -126,6 +126,14 @@ func verify(c *Ctx, fn *ssa.Function, fc *FuncContract, commutes bool) {
 			if len(en.Props) > 0 && c.skipProp != nil && c.skipProp(en.Props) {
 				continue
 			}
+			if en.Ghost {
+				// a ghost attribute of the returned object is defined by this clause: consistent only if the object is new
+				c.note("%s: ghostdef %s defines ghost attributes of the returned object (assumed at call sites; the obligation is that the object is fresh)", fr.fname, en.Label)
+				fr.curProps = en.Props
+				fr.oblige(r.st, fmt.Sprintf("ghostdef.%s.fresh@ret%d", en.Label, ri+1), fr.evalClause("fresh(result0)", &Env{fr: fr, st: r.st, old: fr.entry, binds: binds}), fn.Pos())
+				fr.curProps = nil
+				continue
+			}
 			phi := fr.evalClause(en.Src, &Env{fr: fr, st: r.st, old: fr.entry, binds: binds})
 			fr.curProps = en.Props
 			fr.oblige(r.st, fmt.Sprintf("ensures.%s@ret%d", en.Label, ri+1), phi, fn.Pos())
